@@ -31,10 +31,12 @@ The index values must be used bare (as a subscript index or a call argument), ne
 Anything else is a TranslationError naming file:line (fail closed)."""
 import ast
 import inspect
+import json
+import os
 import sys
 import textwrap
 
-from common import emit, fail, sha1_of, REPO, TranslationError
+from common import emit, fail, sha1_of, REPO, TranslationError, GEN_DIR
 
 INT, REAL, GRID = "int", "real", "grid"
 RESERVED = {"fst", "snd", "let", "in", "if", "then", "else", "fun", "match", "with", "end", "as", "at",
@@ -340,6 +342,7 @@ class Loop:
         self.loop = self.body_fn[loop_index]
         self.prelude = self.body_fn[:loop_index]
         self.lets = []
+        self.src = []                 # python text of the statements turned into lets (for harness/mc_gen.py)
         self.multi = {n for n, k in stores(self.prelude + self.loop.body).items() if k > 1}
         self.translated = set()       # statements turned into lets
         self.left_transformed = False
@@ -396,6 +399,7 @@ class Loop:
                 self.opaque(s, f"not in the expression language: {exc}")
                 return
             self.lets.append(let)
+            self.src.append(ast.unparse(s))
             self.translated.add(s)
             return
         if self.crop_noop(s):
@@ -456,6 +460,8 @@ class Loop:
             fn.env[n] = (n, pair_t(INT, INT))
         self.points = ns
         self.pi_call = s
+        self.left_name = a0.id
+        self.src.append(ast.unparse(s))
         self.translated.add(s)
 
     def run(self):
@@ -590,6 +596,9 @@ def compute_loop(fn, want_std):
             fail(fn.where(wr), f"pixel-wise cost call shape: {ast.unparse(calls[0])}")
     lp.check_bare(bare)
     lp.check_slices(el[1])
+    lp.roles = {"disp": disp, "i_right": lp.i_right, "points": lp.points, "left": lp.left_name, "rs": lp.rs,
+                "write": [ast.unparse(el[1].lower), ast.unparse(el[1].upper)], "std": getattr(lp, "std_names", None),
+                "on_transformed": [lp.left_transformed, lp.right_transformed], "statements": lp.src}
     return lp, out, typ
 
 
@@ -640,6 +649,8 @@ def masked_loop(fn):
     lp.check_slices(None)
     out = [i_right, f"({lp.points[0]}, {lp.points[1]})", i_mask, dsp]
     typ = ["Z", "((Z * Z) * (Z * Z))", "Z", "Z"]
+    lp.roles = {"disp": disp, "i_right": lp.i_right, "points": lp.points, "left": lp.left_name, "rs": lp.rs,
+                "i_mask_right": im_node.id, "dsp": dsp_nodes[0].id, "statements": lp.src}
     return lp, out, typ, idx[0]
 
 
@@ -702,7 +713,7 @@ def out_of_range(fn, after):
             return f"({a} {cmp[type(t.ops[0])]} {b})"
         fail(fn.where(t), f"test shape not supported: {ast.unparse(t)}")
 
-    return elementwise(s1.value.args[0])
+    return elementwise(s1.value.args[0]), {"test": ast.unparse(s1.value.args[0]), "k": k}
 
 
 # ---------------------------------------------------------------- driver
@@ -740,6 +751,7 @@ def main():
 
     sources = []
     out = []
+    sidecar = {}
     AMC = mc.AbstractMatchingCost
     for cls, name in ((sad_ssd.SadSsd, "point_interval"), (census.Census, "point_interval"), (zncc.Zncc, "point_interval"),
                       (sad_ssd.SadSsd, "cv_masked"), (census.Census, "cv_masked"), (zncc.Zncc, "cv_masked"),
@@ -811,7 +823,8 @@ def main():
                "Definition cv_masked_loop (s ny nx : Z) (disp_min disp_max : img) (nx_left : Z) (nx_right_shift : Z -> Z) (disp : Z)\n"
                f"  : {' * '.join(typ)} :=\n"
                + "".join(f"  {x}\n" for x in lp.lets) + "  (" + ", ".join(res) + ").\n")
-    test = out_of_range(fn, at)
+    sidecar["cv_masked_loop"] = lp.roles
+    test, sidecar["cv_masked_out_of_range"] = out_of_range(fn, at)
     out.append("(* AbstractMatchingCost.cv_masked, the test of `for dsp in range(nd_)` at pixel (r, c) for the sample disp\n"
                "   of the plane: true = the cost is set to NaN *)\n"
                "Definition cv_masked_out_of_range (s : Z) (disp_min disp_max : img) (r c disp : Z) : bool :=\n"
@@ -828,6 +841,7 @@ def main():
         fn = Fn(f, l0, node, allow, ["s", "w", "nx_left", "nx_right_shift"])
         fn.left_param, fn.right_param = "img_left", "img_right"
         lp, res, typ = compute_loop(fn, want_std)
+        sidecar[gname] = lp.roles
         wpar = " w" if "w" in allow else ""
         out.append(f"(* {cls.__name__}.compute_cost_volume, one iteration of `for k, disp in enumerate(cost_volume.coords[\"disp\"].data)`:\n"
                    f"   (i_right, (point_p, point_q), (first, last) column written in plane k{', (p_std, q_std)' if want_std else ''});\n"
@@ -846,6 +860,11 @@ def main():
             "   img, grid_min, grid_max: Model/MatchingCost.v (np.nanmin / np.nanmax of an integer grid) *)\n\n"
             + "\n".join(out))
     path, changed = emit("PointInterval", text, sources)
+    # the python text of the translated statements, for the statement-level correspondence of harness/mc_gen.py
+    bdir = os.path.join(os.path.dirname(os.path.dirname(GEN_DIR)), "build")
+    os.makedirs(bdir, exist_ok=True)
+    with open(os.path.join(bdir, "gen_point_interval.json"), "w") as fjs:
+        json.dump(sidecar, fjs, indent=1)
     print(f"gen_point_interval: {path} {'rewritten' if changed else 'unchanged'} functions={len(sources)}")
 
 
